@@ -355,6 +355,19 @@ def _rand_soft(rng):
 def cases(rng, tier):
     out = list(_corpus()) if tier != 'search' else []
     ng, nb, ns = dict(quick=(3000, 1500, 500), thorough=(28000, 9000, 3000), search=(6000, 3000, 500))[tier]
+    # exhaustive tiny histograms (every count vector over the first few grey levels): the stopping rules and arg-max
+    # comparisons of otsu / rc are decided by exact ties and integer midpoints, which large random images never produce
+    import itertools
+    tiny = []
+    for cnts in itertools.product([0, 1, 2, 5], repeat=4):
+        tiny.append([l for l, c in enumerate(cnts) for _ in range(c)])
+    for cnts in itertools.product([0, 1, 3], repeat=5):
+        tiny.append([l for l, c in enumerate(cnts) for _ in range(c)])
+    for base in (0, 7):
+        for d in tiny:
+            if d:
+                out.append(dict(kind='global', dtype='uint8', shape=[len(d)], data=[v + base for v in d],
+                                pseed=rng.randrange(1 << 30), gen='tiny-exhaustive'))
     for _ in range(ng):
         out.append(_rand_global(rng))
     for _ in range(nb):
